@@ -1,6 +1,6 @@
 """C12 - layered caching is coherent, never serves content that fails validation, never self-deadlocks."""
 import re
-from .facts import op_local, Slice, place_fields
+from .facts import op_local, op_const, Slice, place_fields
 from .lib import (bool_switches, enum_switches, assigns_variant, awaited, result_local, must_pass, copies_of)
 from .locks import held_analysis, LockSummaries, classify, SYNC_FAMILIES
 
@@ -409,7 +409,35 @@ def r6_batch(ctx, cfg):
                   "success (e.g. de-duplication keeping the first value: a later value for the same key is lost)" % item, o.loc())
 
 
+def r7_promotion_copies(ctx, cfg):
+    """a promotion that reports success has copied: every `Ok(true)` of the promote* bodies lies behind the put into the target layer (an "already
+    there" shortcut keeps an older copy in the faster layer, which then shadows the newer value below it)"""
+    rule = "C12.R7"
+    ctx.rule(rule, "MultiLayerCacheImpl::promote*: every Ok(true) return is behind the put into the target layer")
+    bodies = [b for b in ctx.prog.bodies.values() if b.krate == "cascette_cache" and b.coroutine and re.search(r"multi_layer\.rs$", b.file or "") and
+              re.search(r"::promote\w*::\{closure#0\}$", b.id)]
+    n = 0
+    for b in sorted(bodies, key=lambda x: x.id):
+        puts = {c.bb for c in b.calls if c.bb in b.live_blocks() and re.search(r"(AsyncCache<K>>?|CacheLayer::<K>)::put(_with_ttl)?$|::put_to_layer$", c.name) or re.search(r"AsyncCache>?::put(_with_ttl)?$", c.orig_name or "")}
+        oks = []
+        for (i, j, st) in assigns_variant(b, "Ok", adt_pat=r"result::Result", with_stmt=True):
+            o = st["r"]["o"][0] if st["r"].get("o") else None
+            if o is not None and o["k"] == "c" and str(op_const(o)) in ("1", "True", "true"):
+                oks.append(i)
+        if not puts or not oks:
+            continue        # delegating wrappers (promote -> promote_entry) return the delegate's result
+        n += 1
+        ctx.saw(b)
+        leak = b.reachable([0], avoid=puts) & set(oks)
+        ctx.check(not leak, rule, [b.id, "true-after-put"], "Ok(true) only after the value was put into the target layer",
+                  "%s can report a successful promotion (Ok(true)) on a path that never puts the value into the target layer: an older copy already in the "
+                  "faster layer is left in place and keeps shadowing the newer value of the slower layer, so get() returns a superseded value" % ctx._stable(b.id),
+                  b.loc(), sample={"fn": b.id, "put_blocks": sorted(puts), "ok_true_blocks": sorted(oks)})
+    ctx.floor(rule, n, 1, "promotion bodies with an own Ok(true)")
+
+
 def run(ctx, cfg=CFG):
+    r7_promotion_copies(ctx, cfg)
     r1_reentrancy(ctx, cfg)
     r2_validated(ctx, cfg)
     from .c07 import hooks_fast_path
